@@ -92,6 +92,17 @@ CHECKS.update({
         ref="4/C19"),
 })
 
+CHECKS.update({
+    "C13": dict(
+        technique="static analysis: unsafe-operation inventory of src/gc.rs; each obligation discharged by a dominance / value-range / caller-argument / who-may-call rule over MIR",
+        text="Turns every unsafe operation and ordering assumption of the collector into an obligation and discharges it "
+             "structurally: handle dereferences dominated by Weak::upgrade, bitmap indices provably in range (with "
+             "CHUNK_CAPACITY tied to the bitmap width), raw chunk-pointer offsets bound-checked, chunks never reallocating, "
+             "sweep only after mark, pooled slots never rooted. Four obligations fail on today's tree (borrow after heap drop, "
+             "missing handle identity check); both are genuine, reproduced and listed. It does not decide that live == reachable.",
+        ref="4/C13"),
+})
+
 NOT_APPLICABLE = {
     "C04": "value equivalence with the TypeScript emit; no structural mechanism exists (DESIGN.md 4/C04)",
     "C09": "behaviour of a fixed-point loader over all graphs x schedules; structural parts are decided under C02/C19",
